@@ -64,38 +64,39 @@ func blockTx(tx *pb.BxhTransaction, m *txMeta) pb.Transaction {
 type pairT struct{ src, dst *mService }
 
 type scn struct {
-	prop              string
-	res               *sim.Result
-	cfg               CConfig
-	reps              []*replica
-	twin              *replica
-	b                 *txBuilder
-	chains            []*mChain
-	pairs             []pairT
-	users             []*Key
-	poor              []*Key
-	pend              []*pb.BxhTransaction
-	pendM             []*txMeta
-	height            uint64 // height of the last executed block
-	blockNo           int    // number of workload blocks executed (policy restart index)
-	ibtp              *ibtpModel
-	grp               *groupModel
-	gov               *govModel
-	bal               *balModel
-	fatal             bool
-	fabsimProofs      int
-	methods           []methodInfo
-	proposals         []string
-	step              int
-	inSetup           bool
-	adminSeq          int               // role macros issued
-	grantSeen         map[string]bool   // administrators already accounted for a grant
-	ruleProposalChain map[string]string // proposal id of a master-rule update -> appchain id
-	bitAddr           string            // address of the deployed WASM bit rule ("" if not deployed)
-	relaySet          map[int]bool      // validator indexes in the trust root currently stored for the other BitXHub (observed)
-	relayN            int
-	icCum             uint64      // C09: interchain transactions counted over all blocks (incl. the prologue)
-	prevRefDump       [][2]string // state store of the reference replica after the previous block (only kept when there are other replicas)
+	prop                            string
+	res                             *sim.Result
+	cfg                             CConfig
+	reps                            []*replica
+	twin                            *replica
+	b                               *txBuilder
+	chains                          []*mChain
+	pairs                           []pairT
+	users                           []*Key
+	poor                            []*Key
+	pend                            []*pb.BxhTransaction
+	pendM                           []*txMeta
+	height                          uint64 // height of the last executed block
+	blockNo                         int    // number of workload blocks executed (policy restart index)
+	ibtp                            *ibtpModel
+	grp                             *groupModel
+	gov                             *govModel
+	bal                             *balModel
+	fatal                           bool
+	fabsimProofs                    int
+	methods                         []methodInfo
+	proposals                       []string
+	step                            int
+	inSetup                         bool
+	prevNeutral, prevEv, curNeutral *pb.CommitEvent   // C09/C12: the previous block (real and with one transaction replaced)
+	adminSeq                        int               // role macros issued
+	grantSeen                       map[string]bool   // administrators already accounted for a grant
+	ruleProposalChain               map[string]string // proposal id of a master-rule update -> appchain id
+	bitAddr                         string            // address of the deployed WASM bit rule ("" if not deployed)
+	relaySet                        map[int]bool      // validator indexes in the trust root currently stored for the other BitXHub (observed)
+	relayN                          int
+	icCum                           uint64      // C09: interchain transactions counted over all blocks (incl. the prologue)
+	prevRefDump                     [][2]string // state store of the reference replica after the previous block (only kept when there are other replicas)
 }
 
 func (s *scn) vio(prop, oracle, discr, f string, a ...any) {
